@@ -515,6 +515,33 @@ int main ()
     O.put (worst / std::max (scale, S[0]*S[0])); };
 
 
+  // oracle: disjoint sample of one instance with 0 < f < 1 and boxcar-modulated modes (which: 0 = A, 1 = B, 2 = both), driven
+  // through the real generator: every selection pattern over the samples 0..lag+1 is forced through random() and weighted by
+  // f^#A (1-f)^#B; given the pattern the I component is affine in the iid modulation draws (deterministic orthogonal stub
+  // fields), so its second moments follow from the impulse responses.  Output: |exact - predicted| of the I,I entry of the
+  // cross-covariance at the lag (samples 1 and 1+lag), exact, predicted
+  OP("o.c05.lagdisjointmix") { double f = A.d(); unsigned lag = A.n(); unsigned w = A.n(); double var = A.d(); unsigned which = A.n();
+    unsigned T = lag + 2; unsigned P = w + T + 2;
+    auto run = [&](unsigned pat, int impA, int impB, std::vector<double>& out, double* predicted) {
+      epsic::disjoint* c = new epsic::disjoint (f); stub_mode* sa = new stub_mode; sa->cv = 0; sa->set_Stokes (Stokes<double>(1,1,0,0)); stub_mode* sb = new stub_mode; sb->cv = 0;
+      sb->field = Spinor<double>(std::complex<double>(0,0), std::complex<double>(2,0)); sb->set_Stokes (Stokes<double>(4,-4,0,0));
+      epsic::mode* ma = sa; epsic::mode* mb = sb;
+      if (which != 1) { scripted_mod* sm = new scripted_mod (sa, 1.0, var); for (unsigned q=0;q<P;q++) sm->values.push_back ((int) q == impA ? 2.0 : 1.0); ma = (w > 1) ? (epsic::mode*) new epsic::boxcar_modulated_mode (sm, w) : sm; }
+      if (which != 0) { scripted_mod* sm = new scripted_mod (sb, 1.0, var); for (unsigned q=0;q<P;q++) sm->values.push_back ((int) q == impB ? 2.0 : 1.0); mb = (w > 1) ? (epsic::mode*) new epsic::boxcar_modulated_mode (sm, w) : sm; }
+      c->A = ma; c->B = mb; epsic::sample* smp = c; smp->sample_size = 1;
+      if (predicted) *predicted = smp->get_crosscovariance (lag)[0][0];
+      g_random.clear(); for (unsigned t=0;t<T;t++) g_random.push_back (((pat >> t) & 1) ? 0 : RAND_MAX);
+      out.clear(); for (unsigned t=0;t<T;t++) out.push_back (smp->get_Stokes()[0]); g_random.clear(); };
+    long double E1 = 0, E2 = 0, E12 = 0; double predicted = 0;
+    for (unsigned pat=0; pat < (1u << T); pat++) { long double pr = 1; for (unsigned t=0;t<T;t++) pr *= ((pat >> t) & 1) ? (long double) f : 1 - (long double) f;
+      std::vector<double> base; run (pat, -1, -1, base, pat == 0 ? &predicted : 0);
+      long double acc = 0;
+      for (unsigned q=0;q<P;q++) { std::vector<double> o;
+        if (which != 1) { run (pat, (int) q, -1, o, 0); acc += ((long double) o[1] - base[1]) * ((long double) o[1+lag] - base[1+lag]); }
+        if (which != 0) { run (pat, -1, (int) q, o, 0); acc += ((long double) o[1] - base[1]) * ((long double) o[1+lag] - base[1+lag]); } }
+      E1 += pr * base[1]; E2 += pr * base[1+lag]; E12 += pr * ((long double) base[1] * base[1+lag] + var * acc); }
+    long double exact = E12 - E1*E2; O.put ((double) fabsl (exact - predicted)); O.put ((double) exact); O.put (predicted); };
+
   // oracle: superposed sample of covariant modes that are both boxcar-smoothed (width w): iid joint draws (a_q, b_q) with unit
   // means, variances va, vb and covariance k through the real coordinator queues and the real filters; deterministic
   // orthogonal stub fields, for which the I component of the superposition is exactly mA + 4 mB.  Var(I) of the sample mean
